@@ -1,5 +1,146 @@
 import ZoektModel.Basic.Proto
+import ZoektModel.C20.Spec
 namespace ZoektModel.C20
-/-- stub: no model driver for C20 yet -/
-def main : IO Unit := ZoektModel.Proto.runLines (fun _ => ZoektModel.Proto.badCase "no model driver for C20")
+open ZoektModel ZoektModel.Proto
+
+def parsePid (s : String) : Option Nat := s.toNat?
+
+/-- ops: `a0,c1,x0,y0,r0` (a = Acquire, c = cancel, x = deadline fires, y = Yield, r = Release), `-` = none -/
+def parseOp (s : String) : Option Op :=
+  match s.toList with
+  | c :: rest =>
+    match (String.ofList rest).toNat? with
+    | none => none
+    | some p =>
+      if c = 'a' then some (.acq p) else if c = 'c' then some (.cancel p) else if c = 'x' then some (.expire p)
+      else if c = 'y' then some (.yield p) else if c = 'r' then some (.rel p) else none
+  | [] => none
+
+def parseOps (s : String) : Option (List Op) :=
+  if s == "-" then some [] else (s.splitOn ",").mapM parseOp
+
+def parseBits (s : String) : Option (List Bool) :=
+  if s == "-" then some [] else s.toList.mapM fun c => if c = '1' then some true else if c = '0' then some false else none
+
+def showRes : Res → String
+  | .ok => "o" | .err => "e" | .blocked => "b" | .none => "-"
+
+def parseRes (s : String) : Option Res :=
+  if s == "o" then some .ok else if s == "e" then some .err else if s == "b" then some .blocked
+  else if s == "-" then some .none else none
+
+def showWoke (w : List (Nat × Res)) : String :=
+  if w.isEmpty then "-" else "+".intercalate (w.map fun (p, r) => s!"{p}{showRes r}")
+
+def parseWoke (s : String) : Option (List (Nat × Res)) :=
+  if s == "-" then some [] else
+  (s.splitOn "+").mapM fun e =>
+    let cs := e.toList
+    match cs.reverse with
+    | c :: rest => do
+      let p ← (String.ofList rest.reverse).toNat?
+      let r ← parseRes (String.singleton c)
+      pure (p, r)
+    | [] => none
+
+/-- returns caused by one operation are reported in increasing search id (the order in which they happen inside the
+    operation is not observable from outside) -/
+def sortWoke (w : List (Nat × Res)) : List (Nat × Res) :=
+  w.foldl (fun acc x =>
+    let (lo, hi) := acc.span (fun y => y.1 ≤ x.1)
+    lo ++ x :: hi) []
+
+def showObs (o : Obs) : String :=
+  s!"{showRes o.out.self}/{showWoke (sortWoke o.out.woke)}/{o.curI}.{o.curB}.{o.waitI}.{o.waitB}"
+
+def parseObs (s : String) : Option Obs :=
+  match s.splitOn "/" with
+  | [a, b, c] =>
+    match c.splitOn "." with
+    | [w, x, y, z] => do
+      let self ← parseRes a
+      let woke ← parseWoke b
+      pure ⟨⟨self, woke⟩, ← w.toNat?, ← x.toNat?, ← y.toNat?, ← z.toNat?⟩
+    | _ => none
+  | _ => none
+
+def showRun (capI capB : Nat) (obs : List Obs) : String :=
+  s!"caps={capI}.{capB} obs={showList showObs obs}"
+
+/-- impl output `caps=<I>.<B> obs=<o1>,<o2>…` -/
+def parseRun (s : String) : Option (Nat × Nat × List Obs) :=
+  match fields s with
+  | [a, b] =>
+    if a.startsWith "caps=" && b.startsWith "obs=" then
+      match ((a.drop 5).toString).splitOn "." with
+      | [x, y] => do
+        let ci ← x.toNat?
+        let cb ← y.toNat?
+        let os := (b.drop 4).toString
+        let obs ← if os == "-" then some [] else (os.splitOn ",").mapM parseObs
+        pure (ci, cb, obs)
+      | _ => none
+    else none
+  | _ => none
+
+/-- events: `ao3,ae3,cn3,yb3,yo3,ye3,rl3,s2.1` -/
+def parseEv (s : String) : Option Ev :=
+  if s.startsWith "s" then
+    match ((s.drop 1).toString).splitOn "." with
+    | [a, b] => do pure (.snap (← a.toNat?) (← b.toNat?))
+    | _ => none
+  else
+    let tag := (s.take 2).toString
+    match ((s.drop 2).toString).toNat? with
+    | none => none
+    | some p =>
+      if tag == "ao" then some (.acqOk p) else if tag == "ae" then some (.acqErr p)
+      else if tag == "cn" then some (.cancel p) else if tag == "yb" then some (.yieldBegin p)
+      else if tag == "yo" then some (.yieldOk p) else if tag == "ye" then some (.yieldErr p)
+      else if tag == "rl" then some (.release p) else none
+
+def parseEvs (s : String) : Option (List Ev) :=
+  if s == "-" then some [] else (s.splitOn ",").mapM parseEv
+
+/--
+* `dir <capacity> <batchdiv> <doneBits> <ops>`  — director run: model output = predicted observations; verdict = `checkRun`
+  on the implementation's observations.
+* `trace <capI> <capB> <nprocs> <events>`      — concurrent log: model output = `cur=<I>.<B>` after replay; verdict =
+  the log is a path of the small-step model.
+* `caps <capacity> <batchdiv>`                 — capacity arithmetic of `newMultiScheduler`.
+-/
+def handle (line : String) : String :=
+  let (inp, impl) := splitCase line
+  match fields inp with
+  | ["dir", c, bd, bits, ops] =>
+    match c.toNat?, bd.toNat?, parseBits bits, parseOps ops with
+    | some cap, some div, some dones, some ops =>
+      let d0 := dInit cap div dones
+      let (_, obs) := dRun d0 ops
+      let model := showRun d0.st.capI d0.st.capB obs
+      match parseRun impl with
+      | none => badCase "impl output"
+      | some (_, _, iobs) =>
+        -- the statement is evaluated with the documented capacities, on the implementation's observations
+        match checkRun cap (batchCap cap div) dones ops iobs with
+        | none => answer model
+        | some key => specFail model key
+    | _, _, _, _ => badCase "fields"
+  | ["trace", ci, cb, n, evs] =>
+    match ci.toNat?, cb.toNat?, n.toNat?, parseEvs evs with
+    | some capI, some capB, some n, some evs =>
+      match replay (init capI capB (List.replicate n false)) evs 0 with
+      | .ok s =>
+        let model := s!"cur={s.curI}.{s.curB}"
+        if s.procs.all Proc.quiescent && impl != "cur=0.0" then specFail model "leak-at-quiescence"
+        else answer model
+      | .error (i, why) => specFail s!"not-a-model-trace@{i}" why
+    | _, _, _, _ => badCase "fields"
+  | ["caps", c, bd] =>
+    match c.toNat?, bd.toNat? with
+    | some cap, some div => answer s!"caps={cap}.{batchCap cap div}"
+    | _, _ => badCase "fields"
+  | _ => badCase "op"
+
+def main : IO Unit := runLines handle
 end ZoektModel.C20
